@@ -21,19 +21,19 @@ namespace cds_verif {
     atomic(const atomic&) = delete; atomic& operator=(const atomic&) = delete;
     bool is_lock_free() const noexcept { return true; }
     T load(memory_order o = memory_order_seq_cst) const noexcept { vs::sched_point(this,vs::K_LOAD,(int)o); T v = a_.load(o); vs::log_event(vs::K_LOAD,this,enc(v),0,1,(int)o); return v; }
-    void store(T v, memory_order o = memory_order_seq_cst) noexcept { vs::sched_point(this,vs::K_STORE,(int)o); a_.store(v,o); vs::log_event(vs::K_STORE,this,enc(v),0,1,(int)o); if (vs::g_post_store_points) { static char after; vs::sched_point(&after,vs::K_LOAD,0); } }
-    T exchange(T v, memory_order o = memory_order_seq_cst) noexcept { vs::sched_point(this,vs::K_XCHG,(int)o); T r = a_.exchange(v,o); vs::log_event(vs::K_XCHG,this,enc(r),enc(v),1,(int)o); return r; }
-    bool compare_exchange_strong(T& e, T d, memory_order s, memory_order f) noexcept { vs::sched_point(this,vs::K_CAS,(int)s); T e0=e; bool ok=a_.compare_exchange_strong(e,d,s,f); vs::log_event(vs::K_CAS,this,enc(ok?e0:e),enc(d),ok,(int)s); return ok; }
+    void store(T v, memory_order o = memory_order_seq_cst) noexcept { vs::sched_point(this,vs::K_STORE,(int)o); a_.store(v,o); vs::log_event(vs::K_STORE,this,enc(v),0,1,(int)o); vs::post_point(); }
+    T exchange(T v, memory_order o = memory_order_seq_cst) noexcept { vs::sched_point(this,vs::K_XCHG,(int)o); T r = a_.exchange(v,o); vs::log_event(vs::K_XCHG,this,enc(r),enc(v),1,(int)o); vs::post_point(); return r; }
+    bool compare_exchange_strong(T& e, T d, memory_order s, memory_order f) noexcept { vs::sched_point(this,vs::K_CAS,(int)s); T e0=e; bool ok=a_.compare_exchange_strong(e,d,s,f); vs::log_event(vs::K_CAS,this,enc(ok?e0:e),enc(d),ok,(int)s); if (ok) vs::post_point(); return ok; }
     bool compare_exchange_strong(T& e, T d, memory_order s = memory_order_seq_cst) noexcept { return compare_exchange_strong(e,d,s,memory_order_relaxed); }
     bool compare_exchange_weak(T& e, T d, memory_order s, memory_order f) noexcept {
       if ( vs::weak_cas_spurious()) { vs::sched_point(this,vs::K_CAS,(int)s); T cur=a_.load(f); vs::log_event(vs::K_CAS,this,enc(cur),enc(d),0,(int)s); e=cur; return false; }
       return compare_exchange_strong(e,d,s,f); }
     bool compare_exchange_weak(T& e, T d, memory_order s = memory_order_seq_cst) noexcept { return compare_exchange_weak(e,d,s,memory_order_relaxed); }
-    template <typename A> T fetch_add(A v, memory_order o = memory_order_seq_cst) noexcept { vs::sched_point(this,vs::K_FADD,(int)o); T r=a_.fetch_add(v,o); vs::log_event(vs::K_FADD,this,enc(r),(uint64_t)v,1,(int)o); return r; }
-    template <typename A> T fetch_sub(A v, memory_order o = memory_order_seq_cst) noexcept { vs::sched_point(this,vs::K_FSUB,(int)o); T r=a_.fetch_sub(v,o); vs::log_event(vs::K_FSUB,this,enc(r),(uint64_t)v,1,(int)o); return r; }
-    template <typename A> T fetch_and(A v, memory_order o = memory_order_seq_cst) noexcept { vs::sched_point(this,vs::K_FBIT,(int)o); T r=a_.fetch_and(v,o); vs::log_event(vs::K_FBIT,this,enc(r),(uint64_t)v,1,(int)o); return r; }
-    template <typename A> T fetch_or(A v, memory_order o = memory_order_seq_cst) noexcept { vs::sched_point(this,vs::K_FBIT,(int)o); T r=a_.fetch_or(v,o); vs::log_event(vs::K_FBIT,this,enc(r),(uint64_t)v,1,(int)o); return r; }
-    template <typename A> T fetch_xor(A v, memory_order o = memory_order_seq_cst) noexcept { vs::sched_point(this,vs::K_FBIT,(int)o); T r=a_.fetch_xor(v,o); vs::log_event(vs::K_FBIT,this,enc(r),(uint64_t)v,1,(int)o); return r; }
+    template <typename A> T fetch_add(A v, memory_order o = memory_order_seq_cst) noexcept { vs::sched_point(this,vs::K_FADD,(int)o); T r=a_.fetch_add(v,o); vs::log_event(vs::K_FADD,this,enc(r),(uint64_t)v,1,(int)o); vs::post_point(); return r; }
+    template <typename A> T fetch_sub(A v, memory_order o = memory_order_seq_cst) noexcept { vs::sched_point(this,vs::K_FSUB,(int)o); T r=a_.fetch_sub(v,o); vs::log_event(vs::K_FSUB,this,enc(r),(uint64_t)v,1,(int)o); vs::post_point(); return r; }
+    template <typename A> T fetch_and(A v, memory_order o = memory_order_seq_cst) noexcept { vs::sched_point(this,vs::K_FBIT,(int)o); T r=a_.fetch_and(v,o); vs::log_event(vs::K_FBIT,this,enc(r),(uint64_t)v,1,(int)o); vs::post_point(); return r; }
+    template <typename A> T fetch_or(A v, memory_order o = memory_order_seq_cst) noexcept { vs::sched_point(this,vs::K_FBIT,(int)o); T r=a_.fetch_or(v,o); vs::log_event(vs::K_FBIT,this,enc(r),(uint64_t)v,1,(int)o); vs::post_point(); return r; }
+    template <typename A> T fetch_xor(A v, memory_order o = memory_order_seq_cst) noexcept { vs::sched_point(this,vs::K_FBIT,(int)o); T r=a_.fetch_xor(v,o); vs::log_event(vs::K_FBIT,this,enc(r),(uint64_t)v,1,(int)o); vs::post_point(); return r; }
     operator T() const noexcept { return load(); }
     T operator=(T v) noexcept { store(v); return v; }
     T operator++() noexcept { return fetch_add(1)+1; }
